@@ -2,3 +2,4 @@
 //! object store), NDJSON helpers.
 pub mod tracestore;
 pub mod coll;
+pub mod nexus;
